@@ -2,8 +2,14 @@
    (Shrinking concerns the unbounded queue, which M-BE does not model yet: not covered here.) *)
 From Coq Require Import List NArith Bool.
 From Quill Require Import Queue.BQDefs Backend.BEDefs Backend.BEInv Backend.BECount Backend.BECtx TieC20.
+From Quill Require TieCtx.
 Import ListNotations.
 Local Open Scope N_scope.
+
+(* T-src: an exited thread's context is removed only when its queue and its transit event buffer are both empty *)
+Theorem C20_tie_ctx_removal_guard : QuillGen.SrcFacts.be_ctx_removal_requires_empty_buffer = true.
+Proof. exact TieCtx.src_be_ctx_removal_requires_empty_buffer. Qed.
+Print Assumptions C20_tie_ctx_removal_guard.
 
 (* T-src: the dead-context counter is at least 32 bits wide *)
 Theorem C20_tie_counter_width : 32 <= QuillGen.SrcFacts.tcm_invalid_count_bits.
